@@ -273,12 +273,105 @@ class FuncInfo(object):
     return '<Func %s::%s>' % (self.module.relpath, self.qualname)
 
 
+# ---------------------------------------------------------------------------
+# canonical form: three behaviour-preserving statement shapes are folded before
+# any rule looks at a function, so that a rule never depends on which of the
+# equivalent spellings the source uses:
+#   C1  `t = E` immediately followed by `return t`, t bound once and read once
+#       in the function                                   ->  `return E`
+#   C2  `t = <constant>` where t is a local never read in the function
+#                                                         ->  removed
+#   C3  `x = x <op> E` for a local name x                 ->  `x <op>= E`
+#   C4  `x: T = E` (annotated assignment with a value)    ->  `x = E`
+# Line numbers of the surviving nodes are kept.
+
+def _name_uses(fn):
+  loads, stores = {}, {}
+  for n in ast.walk(fn):
+    if isinstance(n, ast.Name):
+      d = loads if isinstance(n.ctx, ast.Load) else stores
+      d[n.id] = d.get(n.id, 0) + 1
+    elif isinstance(n, (ast.Global, ast.Nonlocal)):
+      for x in n.names:
+        loads[x] = loads.get(x, 0) + 2
+        stores[x] = stores.get(x, 0) + 2
+    elif isinstance(n, ast.ExceptHandler) and n.name:
+      stores[n.name] = stores.get(n.name, 0) + 1
+    elif isinstance(n, ast.arg):
+      stores[n.arg] = stores.get(n.arg, 0) + 1
+  return loads, stores
+
+
+def _canon_blocks(node):
+  for field in ('body', 'orelse', 'finalbody'):
+    blk = getattr(node, field, None)
+    if isinstance(blk, list) and blk and isinstance(blk[0], ast.stmt):
+      yield blk
+  for h in getattr(node, 'handlers', None) or []:
+    yield h.body
+  for c in getattr(node, 'cases', None) or []:
+    yield c.body
+
+
+def _canon_function(fn):
+  loads, stores = _name_uses(fn)
+  stack = [fn]
+  while stack:
+    node = stack.pop()
+    for blk in _canon_blocks(node):
+      i = 0
+      while i < len(blk):
+        st = blk[i]
+        # C4
+        if isinstance(st, ast.AnnAssign) and st.value is not None and \
+            st.simple and isinstance(st.target, ast.Name):
+          new = ast.Assign(targets=[st.target], value=st.value)
+          ast.copy_location(new, st)
+          blk[i] = st = new
+        single = isinstance(st, ast.Assign) and len(st.targets) == 1 and \
+            isinstance(st.targets[0], ast.Name)
+        name = st.targets[0].id if single else None
+        # C2
+        if single and isinstance(st.value, ast.Constant) and \
+            loads.get(name, 0) == 0 and len(blk) > 1:
+          del blk[i]
+          continue
+        # C1
+        if single and i + 1 < len(blk) and isinstance(
+            blk[i + 1], ast.Return) and isinstance(
+                blk[i + 1].value, ast.Name) and blk[i + 1].value.id == name \
+            and loads.get(name, 0) == 1 and stores.get(name, 0) == 1:
+          blk[i + 1].value = st.value
+          del blk[i]
+          continue
+        # C3
+        if single and isinstance(st.value, ast.BinOp) and isinstance(
+            st.value.left, ast.Name) and st.value.left.id == name:
+          new = ast.AugAssign(target=ast.Name(id=name, ctx=ast.Store()),
+                              op=st.value.op, value=st.value.right)
+          ast.copy_location(new, st)
+          ast.copy_location(new.target, st.targets[0])
+          blk[i] = new
+        if not isinstance(st, (ast.FunctionDef, ast.AsyncFunctionDef,
+                               ast.ClassDef)):
+          stack.append(st)
+        i += 1
+
+
+def canonicalise(tree):
+  for n in ast.walk(tree):
+    if isinstance(n, (ast.FunctionDef, ast.AsyncFunctionDef)):
+      _canon_function(n)
+  return tree
+
+
 class Module(object):
 
   def __init__(self, relpath, src):
     self.relpath = relpath
     self.src = src
     self.tree = ast.parse(src, filename=relpath)
+    canonicalise(self.tree)
     self.funcs = {}  # qualname -> [FuncInfo]  (property getter/setter share)
     self.classes = {}  # qualname -> ClassDef
     self.imports = {}  # alias -> dotted module/symbol
